@@ -140,7 +140,7 @@ pub fn content(rng: &mut Rng, me: &str, others: &[&str], lng: bool) -> String {
   let iface_only = long("declaredOnlyByTheInterface", lng);
   // declarations often carry documentation
   let doc = if rng.chance(1, 3) { "/** documentation comment of the declaration, long enough */\n" } else { "" };
-  let text = match rng.below(27) {
+  let text = match rng.below(29) {
     16..=20 => zoo(rng, &c, other, &oc, lng),
     // caller of a member that other's interface declares
     21 | 22 => format!("{}class {c} {{\n  function {g}({p}: {oc}): int = {p}.{iface_only}() + {p}.{f}()\n}}\n", imp(&oc, other)),
@@ -148,6 +148,10 @@ pub fn content(rng: &mut Rng, me: &str, others: &[&str], lng: bool) -> String {
     // an interface whose super type is a class of the same module (reported when an implementer in
     // ANOTHER module is checked), next to an error of its own
     24 => format!("class {c}Base {{ function {g}(): int = \"a string where an int is expected\" }}\ninterface {c} : {c}Base {{\n  method {f}(): int\n}}\n"),
+    // hands out values of other's struct class (27) / uses what another module hands out (28):
+    // the user depends on a module it does not import
+    27 => format!("{}class {c} {{\n  function {f}(): int = 7\n  function handOut(): {oc} = {oc}.make()\n}}\n", imp(&oc, other)),
+    28 => format!("{}class {c} {{\n  function {g}(): int = {{\n    let {{ {fld} as {v}, {} }} = {oc}.handOut();\n    {oc}.handOut().{f}() + {v}\n  }}\n}}\n", imp(&oc, other), long("anotherFieldOfTheStruct", lng)),
     // importer of two modules: implements other's interface and calls into a second module
     25 | 26 => {
       let other2 = *rng.pick(others);
